@@ -321,7 +321,7 @@ def gen_cases(ctx, Gf):
 
     ints = lambda: rng.randint(-6, 6)
     # 1. small integer structures, every layout, dyadic / equal masses
-    for _ in range(ctx.scale(120, 1500)):
+    for _ in range(ctx.scale(100, 1500)):
         n = rng.randint(2, 7)
         lo, hi = layout(rng, n, rng.choice(LAYOUTS), ints)
         w = rng.choice([None, dyadic_masses(rng, n, rng.choice([2, 3, 4, 8]) if n <= 4 else 8)])
@@ -329,7 +329,7 @@ def gen_cases(ctx, Gf):
             w = dyadic_masses(rng, n, 8)
         family("grid-int", lo, hi, w)
     # 2. cumulated masses exactly on grid levels
-    for _ in range(ctx.scale(120, 1500)):
+    for _ in range(ctx.scale(100, 1500)):
         n = rng.randint(2, 8)
         w = hit_masses(rng, n, Gf)
         if w is None:
@@ -358,7 +358,7 @@ def gen_cases(ctx, Gf):
         sc = rng.choice([1.0, 1.0, 2.0 ** -70, 2.0 ** -30, 2.0 ** 36, 1e150, 1e-170])
         family("grid-hit-decimal", [x * sc for x in lo], [x * sc for x in hi], w)
     # 3. random doubles, 2..50 focal elements
-    for _ in range(ctx.scale(150, 2000)):
+    for _ in range(ctx.scale(120, 2000)):
         n = rng.choice([2, 3, 5, 8, 13, 21, 34, 50, rng.randint(2, 50)])
         sc = 10 ** rng.uniform(-3, 4)
         lo, hi = layout(rng, n, rng.choice(LAYOUTS), lambda: rng.uniform(-1, 1) * sc)
@@ -522,6 +522,15 @@ def variants(lo, hi, w, rng):
               ([I(a, b) for a, b in pairs], np.array(wl)), {}))
     V.append(("stacking:pickled-operands", lambda ops, weights: stacking(pickle.loads(pickle.dumps(ops)), weights=pickle.loads(pickle.dumps(weights))),
               ([I(a, b) for a, b in pairs], list(wl)), {}))
+    # reduced / extended precision containers of the same values must give the float64 result
+    f32ok = all(float(np.float32(x)) == float(x) for x in list(lo) + list(hi) + wl)
+    f16ok = all(float(np.float16(x)) == float(x) for x in list(lo) + list(hi))
+    if f32ok:
+        V.append(("stacking:float32-array", stacking, (np.array(pairs, dtype=np.float32),), {"weights": np.array(wl, dtype=np.float32)}))
+        V.append(("dss:float32-vec-Interval", dss, (I(np.array([a for a, _ in pairs], dtype=np.float32), np.array([b for _, b in pairs], dtype=np.float32)), np.array(wl, dtype=np.float32)), {}))
+    if f16ok:
+        V.append(("stacking:float16-array", stacking, (np.array(pairs, dtype=np.float16),), {"weights": list(wl)}))
+    V.append(("stacking:longdouble-array", stacking, (np.array(pairs, dtype=np.longdouble),), {"weights": np.array(wl, dtype=np.longdouble)}))
     if n != 2:      # the documented (2, n) layout: a row of lower endpoints and a row of upper endpoints
         V.append(("stacking:2xn-array", stacking, (np.array([[a for a, _ in pairs], [b for _, b in pairs]]),), {"weights": list(wl)}))
         V.append(("dss:2xn-array", dss, (np.array([[float(a) for a, _ in pairs], [float(b) for _, b in pairs]]), np.array(wl)), {}))
@@ -558,7 +567,8 @@ def call_variant(fn, args, kwargs):
 
 def special_structures(rng, Gf):
     """DS structures aimed at the second-wave themes: thin / tiny / extreme endpoints, tiny extreme masses"""
-    kind = rng.choice(["int-unequal", "int-unequal", "thin", "tiny", "extreme", "tiny-mass", "hit", "scaled", "scaled", "zero", "fine-mass"])
+    kind = rng.choice(["int-unequal", "int-unequal", "thin", "tiny", "extreme", "tiny-mass", "hit", "scaled", "scaled", "zero", "fine-mass",
+                       "shared-lo", "shared-hi", "bigint"])
     n = rng.randint(2, 6)
     if kind == "thin":            # relative width 1e-9 .. 1e-5, neighbours differing by as little
         base = rng.uniform(1, 100)
@@ -579,6 +589,21 @@ def special_structures(rng, Gf):
         sc = rng.choice([2.0 ** -70, 2.0 ** -30, 2.0 ** 36, 1e-19, 1e-170, 1e150])
         lo, hi = layout(rng, n, rng.choice(LAYOUTS), lambda: rng.randint(-9, 9))
         lo, hi = [x * sc for x in lo], [x * sc for x in hi]
+    elif kind in ("shared-lo", "shared-hi"):   # a flat run in ONE bound that is not matched in the other (ties in one sort key only)
+        c = rng.randint(-5, 5)
+        other = rng.sample(range(c + 1, c + 30), n) if kind == "shared-lo" else rng.sample(range(c - 30, c), n)
+        k = rng.randint(1, n)                     # k of the n elements share the endpoint
+        lo = [c if (kind == "shared-lo" and i < k) else (min(c, o) if kind == "shared-lo" else o) for i, o in enumerate(other)]
+        hi = [c if (kind == "shared-hi" and i < k) else (max(c, o) if kind == "shared-hi" else o) for i, o in enumerate(other)]
+        if kind == "shared-lo":
+            lo = [c if i < k else rng.randint(c - 4, c + 4) for i in range(n)]
+            hi = [max(l, o) for l, o in zip(lo, other)]
+        else:
+            hi = [c if i < k else rng.randint(c - 4, c + 4) for i in range(n)]
+            lo = [min(h, o) for h, o in zip(hi, other)]
+    elif kind == "bigint":        # Python ints beyond 2**53 (powers of two: exact in binary64)
+        lo = [2 ** rng.randint(54, 62) * rng.choice([1, -1]) for _ in range(n)]
+        hi = [x + 2 ** rng.randint(54, 60) for x in lo]
     elif kind == "zero":          # falsy-but-valid endpoints: 0, 0.0, -0.0 and the point interval at zero
         lo, hi = layout(rng, n, rng.choice(LAYOUTS), lambda: rng.randint(-3, 3))
         k = rng.randrange(n)
@@ -727,6 +752,162 @@ def run_repr_stream(ctx, G, Gf):
             reverify(f"after case {ci}")
     reverify("end of run")
 
+def expected_bounds(lo, hi, w, G):
+    m = [F(float(x)) for x in w]
+    return [float(v) for v in geninv(lo, m, G)[0]], [float(v) for v in geninv(hi, m, G)[0]]
+
+
+def bounds_bad(impl, el, er, al=(), ar=()):
+    return [(sd, i) for sd, a, b, amb in (("left", impl[1], el, al), ("right", impl[2], er, ar))
+            for i, (x, y) in enumerate(zip(a, b)) if x != y and i not in amb] or (len(impl[1]) != len(el))
+
+
+def run_state_stream(ctx, G, Gf):
+    """(Q) caller-visible aliasing, (P) global state: floating-point error handling / warnings escalated, and the public
+    discretisation Params.steps / Params.p_values changed, used and restored"""
+    import warnings as _w
+    stacking, mixture, DS, I, Staircase, Params = _api()
+    rng = ctx.rng
+    # ---------------- (Q) the caller keeps working on its own arrays after handing them over
+    for _ in range(ctx.scale(25, 600)):
+        n = rng.randint(2, 6)
+        lo, hi = layout(rng, n, rng.choice(LAYOUTS), lambda: rng.randint(-9, 9))
+        lo, hi = [float(x) for x in lo], [float(x) for x in hi]
+        w = dyadic_masses(rng, n, 8)
+        al, ar = cmp_check(G, lo, w)[1], cmp_check(G, hi, w)[1]
+        el, er = expected_bounds(lo, hi, w, G)
+        cj = {"stream": "aliasing", "lo": lo, "hi": hi, "w": w}
+        ctx.count(("alias", tuple(lo), tuple(hi), tuple(w)), True, "aliasing")
+        for form in ("dss:ndarray-masses", "dss:ndarray-intervals", "dss:vec-Interval-arrays", "stacking:ndarrays", "mixture:Interval-of-arrays"):
+            wb = np.array(w, dtype=float)
+            ivb = np.array([[a, b] for a, b in zip(lo, hi)], dtype=float)
+            lob, hib = np.array(lo, dtype=float), np.array(hi, dtype=float)
+            try:
+                bufs = [wb]
+                if form == "dss:ndarray-masses":
+                    obj = DS([[a, b] for a, b in zip(lo, hi)], wb)
+                elif form == "dss:ndarray-intervals":
+                    obj = DS(ivb, list(w)); bufs = [ivb]
+                elif form == "dss:vec-Interval-arrays":
+                    obj = DS(I(lob, hib), wb); bufs = [wb, lob, hib]
+                elif form == "stacking:ndarrays":
+                    obj = stacking(ivb, weights=wb); bufs = [ivb, wb]
+                else:
+                    ops = [I(np.array(a), np.array(b)) for a, b in zip(lo, hi)]
+                    obj = mixture(*ops, weights=wb); bufs = [wb]
+                first = None
+                if form.startswith("dss"):
+                    p0 = obj.to_pbox()
+                    first = ("ok", [float(x) for x in p0.left], [float(x) for x in p0.right])
+                # the caller re-uses its buffers
+                for b in bufs:
+                    if b is wb:
+                        b[:] = b[::-1].copy() if len(set(w)) > 1 else b
+                        b *= 0.5
+                        b[0] += 0.5
+                    else:
+                        b += 5.0
+                p1 = obj.to_pbox() if form.startswith("dss") else obj
+                impl = ("ok", [float(x) for x in p1.left], [float(x) for x in p1.right])
+                shares = any(np.shares_memory(np.asarray(p1.left), b) or np.shares_memory(np.asarray(p1.right), b) for b in bufs)
+            except BaseException as e:  # noqa
+                ctx.fail({"call": form, "symptom": "raises:" + err_kind(e), "stream": "aliasing"}, cj, f"{form} raises {type(e).__name__}")
+                continue
+            ctx.bump("aliasing-calls")
+            bad = bounds_bad(impl, el, er, al, ar)
+            if bad or shares or (first is not None and first != impl):
+                what = ("the p-box shares memory with the caller's array" if shares and not bad else
+                        "after the caller modified its own array in place, the conversion no longer gives the p-box of the DS structure that was constructed")
+                ctx.fail({"call": form, "symptom": "aliases-caller-array", "stream": "aliasing"}, dict(cj, form=form), f"{form}: {what}")
+    # ---------------- (P i) escalated floating-point errors / warnings: same value, or an exception; never another value
+    for _ in range(ctx.scale(15, 300)):
+        n = rng.randint(2, 6)
+        lo, hi = layout(rng, n, rng.choice(LAYOUTS), lambda: rng.choice([rng.randint(-9, 9), rng.randint(-9, 9) * 2.0 ** -70, rng.randint(-9, 9) * 1e150]))
+        lo, hi = [float(x) for x in lo], [float(x) for x in hi]
+        w = dyadic_masses(rng, n, 8)
+        al, ar = cmp_check(G, lo, w)[1], cmp_check(G, hi, w)[1]
+        el, er = expected_bounds(lo, hi, w, G)
+        cj = {"stream": "fp-state", "lo": lo, "hi": hi, "w": w}
+        ctx.count(("fpstate", tuple(lo), tuple(hi), tuple(w)), True, "fp-state")
+        calls = [("stacking", lambda: stacking([[a, b] for a, b in zip(lo, hi)], weights=list(w))),
+                 ("dss", lambda: DS([[a, b] for a, b in zip(lo, hi)], list(w)).to_pbox()),
+                 ("mixture", lambda: mixture(*[I(a, b) for a, b in zip(lo, hi)], weights=list(w)))]
+        for mode in ("errstate-raise", "warnings-error"):
+            for name, f in calls:
+                try:
+                    if mode == "errstate-raise":
+                        with np.errstate(all="raise"):
+                            p_ = f()
+                    else:
+                        with _w.catch_warnings():
+                            _w.simplefilter("error")
+                            p_ = f()
+                    impl = ("ok", [float(x) for x in p_.left], [float(x) for x in p_.right])
+                except BaseException:  # noqa   (an escalated warning / FloatingPointError propagating is acceptable)
+                    ctx.bump(f"{mode}:raised")
+                    continue
+                ctx.bump(f"{mode}:value")
+                if bounds_bad(impl, el, er, al, ar):
+                    ctx.fail({"call": name, "symptom": "different-value-under-" + mode, "stream": "fp-state"}, dict(cj, mode=mode),
+                             f"{name} under {mode} returns a p-box that is not the Bel/Pl inverse (it is under the default settings)")
+        # the default settings still give the right answer afterwards
+        p_ = stacking([[a, b] for a, b in zip(lo, hi)], weights=list(w))
+        if bounds_bad(("ok", [float(x) for x in p_.left], [float(x) for x in p_.right]), el, er, al, ar):
+            ctx.fail({"call": "stacking", "symptom": "state-leaked", "stream": "fp-state"}, cj, "stacking gives another p-box after the escalated-warning calls")
+    # ---------------- (P ii) the public discretisation changed, used, restored
+    old = (Params.steps, Params.p_values)
+    reqs, pend = [], []
+    try:
+        for steps in [300, 400, 100, 40, 201, 199][: ctx.scale(4, 6)]:
+            Params.steps = steps
+            Params.p_values = np.linspace(Params.p_lboundary, Params.p_hboundary, steps)
+            Gs_f = [float(x) for x in Params.p_values]
+            Gs = [F(x) for x in Gs_f]
+            for _ in range(ctx.scale(4, 60)):
+                n = rng.randint(2, 6)
+                lo, hi = layout(rng, n, rng.choice(LAYOUTS), lambda: rng.randint(-9, 9))
+                lo, hi = [float(x) for x in lo], [float(x) for x in hi]
+                w = dyadic_masses(rng, n, 8)
+                el, er = expected_bounds(lo, hi, w, Gs)
+                cj = {"stream": "grid-changed", "steps": steps, "lo": lo, "hi": hi, "w": w}
+                ctx.count(("grid", steps, tuple(lo), tuple(hi), tuple(w)), True, "grid-changed")
+                for name, f in [("stacking", lambda: stacking([[a, b] for a, b in zip(lo, hi)], weights=list(w))),
+                                ("dss", lambda: DS([[a, b] for a, b in zip(lo, hi)], list(w)).to_pbox()),
+                                ("mixture", lambda: mixture(*[I(a, b) for a, b in zip(lo, hi)], weights=list(w)))]:
+                    try:
+                        p_ = f()
+                        impl = ("ok", [float(x) for x in p_.left], [float(x) for x in p_.right])
+                    except BaseException as e:  # noqa
+                        ctx.fail({"call": name, "symptom": "raises:" + err_kind(e), "stream": "grid-changed", "steps": steps}, cj,
+                                 f"{name} raises {type(e).__name__} when Params.steps = {steps} (grid linspace(0.001, 0.999, {steps}))")
+                        continue
+                    if len(impl[1]) != steps or bounds_bad(impl, el, er):
+                        ctx.fail({"call": name, "symptom": "not-geninv-on-changed-grid", "stream": "grid-changed", "steps": steps}, cj,
+                                 f"{name} with Params.steps = {steps}: {len(impl[1])} steps; not the Bel/Pl inverse at the {steps} configured levels")
+                    if name == "stacking":
+                        reqs.append(f"stackg {ql(Gs_f)} {ql(lo)} {ql(hi)} {ql(w)}")
+                        pend.append((cj, impl))
+                        try:          # round trip on the configured grid
+                            r_ = p_.to_dss().to_pbox()
+                            if [float(x) for x in r_.left] != impl[1] or [float(x) for x in r_.right] != impl[2]:
+                                ctx.fail({"call": "to_dss().to_pbox()", "symptom": "roundtrip-differs", "stream": "grid-changed", "steps": steps}, cj,
+                                         f"round trip with Params.steps = {steps} changes the p-box")
+                        except BaseException as e:  # noqa
+                            ctx.fail({"call": "to_dss().to_pbox()", "symptom": "raises:" + err_kind(e), "stream": "grid-changed"}, cj,
+                                     f"p.to_dss().to_pbox() raises {type(e).__name__} when Params.steps = {steps}")
+    finally:
+        Params.steps, Params.p_values = old
+    for (cj, impl), rep in zip(pend, model_batch_par("C08", reqs)):
+        model = parse_model(rep)
+        ok = model[0] == "ok" and len(model[1]) == len(impl[1]) and all(F(x) == y for x, y in zip(impl[1] + impl[2], model[1] + model[2]))
+        (ctx.tie_ok() if ok else ctx.tie_bad("grid-changed", cj, _short(impl), _short(model)))
+    # restored: the default grid answers as before
+    p_ = stacking([[1, 5], [3, 6], [0, 2]], weights=[0.25, 0.5, 0.25])
+    el, er = expected_bounds([1.0, 3.0, 0.0], [5.0, 6.0, 2.0], [0.25, 0.5, 0.25], G)
+    if len(p_.left) != len(G) or bounds_bad(("ok", [float(x) for x in p_.left], [float(x) for x in p_.right]), el, er):
+        ctx.fail({"call": "stacking", "symptom": "grid-not-restored", "stream": "grid-changed"}, {}, "after restoring Params the default grid is not in effect")
+
+
 # ---- comparison ------------------------------------------------------------------
 def diff_idx(impl, ref):
     """indices (side, i) where the implementation's bound differs from a reference given as Fractions"""
@@ -861,6 +1042,7 @@ def run(ctx: core.Check):
                          f"p-box changes under {m[0]['role']} of the focal elements ({s}[{i}])")
     # --- operand representations / sequences / aliasing
     run_repr_stream(ctx, G, Gf)
+    run_state_stream(ctx, G, Gf)
     # --- round trip
     rts = gen_roundtrip(ctx, stacked)
     rreps = model_batch_par("C08", [f"rt {ql(c['left'])} {ql(c['right'])}" for c in rts])
